@@ -9,7 +9,7 @@ import (
 )
 
 func init() {
-	probeNames["C14"] = []string{"grow", "shrink", "to_unbounded", "from_unbounded", "equal", "below_usage", "prealloc", "wal_mapping_live", "free_region_at_end", "release_regions_tx", "crash_image_in_reopen", "later_plain_open", "commit_ok", "out_of_memory"}
+	probeNames["C14"] = []string{"grow", "shrink", "to_unbounded", "from_unbounded", "equal", "below_usage", "prealloc", "wal_mapping_live", "free_region_at_end", "release_regions_tx", "crash_image_in_reopen", "later_plain_open", "commit_ok", "out_of_memory", "overflow_pages_at_size_change", "second_size_change"}
 	register(&PropDef{
 		ID: "C14", Level: "exploration", QuickSec: 50, ThoroSec: 900,
 		Rule: "each run = seeded prior txops history (live WAL overwrite mappings, free regions at the file end), then Close and Open with FlagUpdMaxSize for a drawn (old max, new max, prealloc) combination: old in {unbounded, 64KiB..512KiB} x new in {unbounded, smaller, equal, larger, below current usage}, then a further history, then a plain open. Oracles: model check right after the open (root and every live page), lock state idle and Begin/BeginReadonly return (scheduler deadlock detection), growing a bounded file makes exactly newMaxPages-oldMaxPages more pages allocatable (capacity probe), after shrinking the simulated file never extends beyond max(extent before, new limit), the file keeps working, a later plain open reports the new limit; crash images at every I/O boundary inside the size-changing open recover all contents with the old or the new limit. Non-trivial = the open actually changed the limit; distinct = op list + (old,new,prealloc) + schedule hash.",
@@ -29,6 +29,19 @@ func c14Body(e *Env) {
 		cfg.Prealloc = rng.Intn(3) == 0
 		cfg.Mix = []string{"balanced", "overwrite", "alloc", "fragment", "big"}[rng.Intn(5)]
 		cfg.Overflow = false
+		if cfg.MaxSize > 0 && rng.Intn(4) == 0 {
+			// transactions may use the overflow area: metadata pages past the limit
+			// exist when the limit changes (no extent oracle in these runs)
+			cfg.Overflow = true
+			cfg.MaxSize = (64 << 10) << uint(rng.Intn(2))
+			cfg.PageSize = []int{1024, 4096}[rng.Intn(2)]
+			cfg.InitMeta = rng.Intn(3)
+			cfg.Mix = []string{"big", "alloc", "fragment"}[rng.Intn(3)]
+			cfg.NTx = 4 + rng.Intn(8)
+			if rng.Intn(2) == 0 {
+				cfg.Variant = 4
+			}
+		}
 		if rng.Intn(3) == 0 {
 			cfg.Variant2 = 1 + rng.Intn(5)
 			cfg.Prealloc2 = rng.Intn(2) == 0
@@ -58,10 +71,40 @@ func c14Body(e *Env) {
 		}
 	}()
 	g := NewGen(r, e.Rng("ops"), cfg.Mix)
-	g.NoOverflow = true
+	g.NoOverflow = !cfg.Overflow
 	runHistory(e, r, g, explicit1, cfg.NTx, "C03", nil)
 	if r.InTx() && !e.Failed() {
 		r.Apply(Op{K: "rollback"})
+	}
+	if cfg.Overflow && explicit1 == nil && !e.Failed() && rng.Intn(4) > 0 {
+		// fill the file, then commit overwrites: the write-ahead pages, the mapping
+		// and the free list have to go to the overflow area past the limit
+		if n, err := capacityProbe(r, 1<<20); err == nil {
+			fill := []Op{{K: "begin", A: 1}}
+			for n -= rng.Intn(3); n > 0; {
+				k := 1 + rng.Intn(40)
+				if k > n {
+					k = n
+				}
+				fill = append(fill, Op{K: "allocn", A: k})
+				n -= k
+			}
+			fill = append(fill, Op{K: "commit"}, Op{K: "begin", A: 1})
+			for i, m := 0, 1+rng.Intn(6)*rng.Intn(8); i < m; i++ {
+				fill = append(fill, Op{K: []string{"setfull", "setfull", "setpart", "free"}[rng.Intn(4)], A: rng.Intn(1 << 20)})
+			}
+			fill = append(fill, Op{K: "commit"})
+			for _, op := range fill {
+				if e.Failed() {
+					break
+				}
+				e.Guard("C03", fmt.Sprintf("operation %v", op), func() { r.Apply(op) })
+				e.Yield("op")
+			}
+			if r.InTx() && !e.Failed() {
+				r.Apply(Op{K: "rollback"})
+			}
+		}
 	}
 	ops1 := r.Ops
 	r.Ops = nil
@@ -87,6 +130,13 @@ func c14Body(e *Env) {
 	}
 	if len(snap.WALMapping) > 0 {
 		e.Probe("wal_mapping_live")
+	}
+	overflowPages := 0
+	if oldMax > 0 && int(snap.MetaEnd) > oldMax/ps {
+		overflowPages = int(snap.MetaEnd) - oldMax/ps
+		if int(snap.DataEnd) <= oldMax/ps {
+			e.Probe("overflow_pages_at_size_change")
+		}
 	}
 	if n := len(snap.DataFree); n > 0 && snap.DataFree[n-1].ID+PageID(snap.DataFree[n-1].Count) == snap.DataEnd {
 		e.Probe("free_region_at_end")
@@ -185,8 +235,10 @@ func c14Body(e *Env) {
 	}
 	// (only if the file was within its old limit: after an earlier shrink below
 	// the space in use the first additional pages only make up for the excess)
-	if oldMax > 0 && newMaxRounded > oldMax && usedBytes <= oldMax {
-		want := (newMaxRounded - oldMax) / ps
+	if oldMax > 0 && newMaxRounded > oldMax && (usedBytes <= oldMax || int(snap.DataEnd)*ps <= oldMax && newMaxRounded >= usedBytes) {
+		// metadata pages in the overflow area (past the old limit) are in use
+		// already: they are not among the pages that become allocatable
+		want := (newMaxRounded-oldMax)/ps - overflowPages
 		if capAfter-capBefore != want {
 			e.Fail("C14", "grow-capacity", "%s: %d pages were allocatable before and %d after, expected exactly %d additional pages", what, capBefore, capAfter, want)
 			return false
@@ -261,7 +313,7 @@ func c14Body(e *Env) {
 	_ = oldMax
 	// --- further history on the reopened file
 	g2 := NewGen(r, e.Rng("ops2"), cfg.Mix)
-	g2.NoOverflow = true
+	g2.NoOverflow = !cfg.Overflow
 	g2.NoReopen = true
 	runHistory(e, r, g2, explicit2, 2+cfg.NTx/2, "C14", nil)
 	if r.InTx() && !e.Failed() {
@@ -270,7 +322,7 @@ func c14Body(e *Env) {
 	if e.Failed() {
 		return
 	}
-	if newMaxRounded > 0 && (oldMax == 0 || newMaxRounded < oldMax) {
+	if newMaxRounded > 0 && (oldMax == 0 || newMaxRounded < oldMax) && !cfg.Overflow {
 		limit := extentBefore
 		if int64(newMaxRounded) > limit {
 			limit = int64(newMaxRounded)
